@@ -25,9 +25,17 @@ def main():
     if "--checks" in sys.argv:
         checks = sys.argv[sys.argv.index("--checks") + 1].split(",")
     demo_txt = open(os.path.join(src, "demo.txt")).read() if os.path.exists(os.path.join(src, "demo.txt")) else ""
-    demos = [f for f in os.listdir(src) if f.endswith(".go")]
+    demos = []
+    for root, _, fs in os.walk(src):
+        for f in fs:
+            if f.endswith(".go"):
+                demos.append(os.path.relpath(os.path.join(root, f), src))
     dest = {}
     for f in demos:
+        if os.path.dirname(f):
+            # saved under the package directory it belongs to
+            dest[f] = f
+            continue
         m = re.search(re.escape(f) + r"\s*(?:->\s*copy\s+to|->|to|into|as)\s+(\S+?\.go)", demo_txt)
         if m:
             dest[f] = m.group(1)
@@ -90,7 +98,7 @@ def finish(res, src, pid, k, dest, keep):
     os.makedirs(out, exist_ok=True)
     shutil.copy(os.path.join(src, "patch.diff"), out)
     for f in dest:
-        shutil.copy(os.path.join(src, f), os.path.join(out, f + ".txt"))   # .txt: not a Go source of this repo
+        shutil.copy(os.path.join(src, f), os.path.join(out, f.replace("/", "__") + ".txt"))   # .txt: not a Go source of this repo
     meta = {}
     mp = os.path.join(src, "meta.json")
     if os.path.exists(mp):
@@ -98,7 +106,7 @@ def finish(res, src, pid, k, dest, keep):
             meta = json.load(open(mp))
         except Exception:
             meta = {"raw": open(mp).read()}
-    meta["demonstration"] = {f + ".txt": d for f, d in dest.items()}
+    meta["demonstration"] = {f.replace("/", "__") + ".txt": d for f, d in dest.items()}
     meta["confirmed_by_coordinator"] = {x: res[x] for x in ("patch_applies", "suite_green_with_patch", "demo_fails_with_patch", "demo_passes_without")}
     meta["coordinator_ran"] = ["cp -r /repo <scratch>; git apply patch.diff; go build ./... && go test -vet=off -count=1 ./...",
                                "go test -run Seed%s_%s <pkgs> with and without the patch" % (pid, k),
